@@ -88,7 +88,7 @@ example : (localStep .sqliteFile 5 { pid := 1, pool := { con := some ⟨0, 0⟩,
 
 /-- the same on whole histories: a child whose first connection attempt fails and which then retries (witness of the seeded change c36-1) -/
 example : (run (init .sqliteFile) [.act 0 .connect, .act 0 .release, .fork 0, .act 1 .connectFail, .act 1 .connect, .act 1 .stmt]).stmts
-    = [(0, ⟨0, 0⟩), (1, ⟨4, 1⟩)] := by decide
+    = [(0, ⟨0, 0⟩), (1, ⟨3, 1⟩)] := by decide
 
 /-! ### 4. statements and close() calls only ever reach connections of the acting process — under caller discipline -/
 
